@@ -239,7 +239,7 @@ var spec = core.Spec[Case]{
 	Sample: func(c Case) any { return c.Line },
 }
 
-func TestProp(t *testing.T)   { core.RunProp(t, spec) }
+func TestProp(t *testing.T) { core.RunProp(t, spec) }
 func TestReplay(t *testing.T) {
 	// a safe-list editing case (safelist_test.go) is recognised by its "word" field
 	if b, err := os.ReadFile(os.Getenv("VERIF_REPLAY")); err == nil && strings.Contains(string(b), "\"word\"") {
